@@ -266,7 +266,11 @@ def _zero_infeasible(cfg, func, holder, atom):
         root = cn.cond if cn.kind == "test" else cn.ast
         if root is None or cn.kind in ("guard", "loopin", "loopdone", "fornext"):
             continue
-        if isinstance(root, (ast.For, ast.While, ast.Try, ast.With)) and cn.kind != "foriter":
+        if cn.kind == "foriter":
+            root = root.iter
+        elif cn.kind == "with":
+            root = ast.Tuple(elts=[i.context_expr for i in root.items], ctx=ast.Load())
+        elif isinstance(root, (ast.For, ast.While, ast.Try, ast.With, ast.FunctionDef, ast.ClassDef)):
             continue
         for c in ast.walk(root):
             if c is atom:
